@@ -24,7 +24,8 @@ pub fn digits(mut v: u64, k: usize) -> Seq {
 }
 
 pub fn rank(s: &[u8]) -> u64 {
-    s.iter().fold(0u64, |a, b| (a << 2) | (*b as u64))
+    // for more than 32 bases the leading ones fall off the top (callers that need exact ranks pass <= 32 bases)
+    s.iter().fold(0u64, |a, b| a.wrapping_shl(2) | (*b as u64))
 }
 
 /// `got` must spell `want` and must be `==` / cmp-equal to the k-mer built from `want`.
